@@ -37,6 +37,26 @@ def _once(ctx, name):
 # ---------------------------------------------------------------------------------------------
 
 
+def reader_consumed_once(ctx):
+    """The records of one reader object are drawn by one iteration: `read_file()` is a generator over the reader's single file
+    handle, so a second `read_file()` on the same object (a `next(g.read_file(), None)` to peek at the first record, a count
+    before the real loop) takes records away from the other iteration."""
+    repo = ctx.repo
+    n = 0
+    for f in repo.all_funcs():
+        calls = {}
+        for c in walk_own(f.node):
+            if isinstance(c, ast.Call) and isinstance(c.func, ast.Attribute) and c.func.attr == "read_file" and isinstance(c.func.value, ast.Name):
+                calls.setdefault(c.func.value.id, []).append(c)
+        for recv, cs in calls.items():
+            stores = sum(1 for x in walk_own(f.node) if isinstance(x, ast.Name) and x.id == recv and isinstance(x.ctx, ast.Store))
+            if len(cs) > 1 and stores <= 1:
+                n += 1
+                ctx.violated("R17.6", f.where(cs[0]), f"`{recv}.read_file()` is called {len(cs)} times on the same reader object: both generators read from its one file handle, so the records taken by the first (a peek with next(), a pre-scan) are missing from the second", key_of(f, f"reader-consumed-twice:{recv}"))
+    if n == 0:
+        ctx.holds("R17.6", "gaftools/", "no reader object has read_file() called on it twice in one function", nontrivial=False)
+
+
 def gaf_reader(ctx):
     """openers (R17.1), whole-line reads (R17.5), reader contract (R17.6)"""
     if not _once(ctx, "gaf_reader"):
@@ -47,6 +67,7 @@ def gaf_reader(ctx):
     ctx.run(c17.r17_5)
     ctx.run(c17.r17_8)
     ctx.run(r17_6)
+    ctx.run(reader_consumed_once)
     ctx.run(r16_9)
 
 
@@ -432,7 +453,16 @@ def cli_layer(ctx, command, stdout_records=True):
                 ctx.violated("R00.6", f.where(c), f"`{norm(c)[:60]}` opens an output for appending: a file left by an earlier run is kept and the new records are added after it, so the output is not what this run produced", key_of(f, f"append-mode:{norm(c.args[0])[:30]}"))
     ctx.holds("R00.6", mod.relpath, "no output of the command is opened in append mode", nontrivial=False)
     # R00.3 / R00.4 over the command's own module (all functions)
-    text_lint(ctx, [mod])
+    if mod.name not in ctx.__dict__.get("_prelinted", set()):
+        text_lint(ctx, [mod])
+    # R00.7: identity comparison of values, a list changed while it is iterated (command module and the library modules)
+    libs = [repo.modules[m_] for m_ in ("gaftools.conversion", "gaftools.gfa", "gaftools.gaf", "gaftools.utils") if m_ in repo.modules]
+    done_ = ctx.__dict__.get("_prelinted", set())
+    if _once(ctx, "lib-text-lint"):
+        text_lint(ctx, libs)
+    n_p = pitfall_lints(ctx, [f for m_ in [mod] + libs if m_.name not in done_ for f in m_.funcs.values()], "R00.7")
+    if n_p == 0:
+        ctx.holds("R00.7", mod.relpath, "no identity comparison of values and no list changed inside the loop that iterates it (command module and library modules)", nontrivial=False)
 
 
 def _texty(f, e, defs, depth=0):
@@ -453,6 +483,9 @@ def _texty(f, e, defs, depth=0):
         return False
     if isinstance(e, ast.Name) and depth < 3 and e.id in defs and len(defs[e.id]) == 1 and defs[e.id][0] is not None:
         return _texty(f, defs[e.id][0], defs, depth + 1)
+    if isinstance(e, ast.Name) and depth < 3 and len(defs.get(e.id, [])) > 1:
+        # bound on several branches: text on one of them is enough for the comparison to see text there
+        return any(d is not None and _texty(f, d, defs, depth + 1) for d in defs[e.id])
     return False
 
 
@@ -488,6 +521,12 @@ def _defs_with_unpack(f):
             for t, v in zip(st.targets[0].elts, st.value.elts):
                 if isinstance(t, ast.Name):
                     defs[t.id] = [v] if t.id not in defs or defs[t.id] == [None] else defs[t.id]
+        # (a, b) = text.split("-"): each name is one piece of the split
+        if isinstance(st, ast.Assign) and isinstance(st.targets[0], ast.Tuple) and isinstance(st.value, ast.Call) and isinstance(st.value.func, ast.Attribute) and st.value.func.attr in ("split", "rsplit", "partition", "rpartition", "groups"):
+            for k_, t in enumerate(st.targets[0].elts):
+                if isinstance(t, ast.Name):
+                    piece = ast.Subscript(value=st.value, slice=ast.Constant(value=k_), ctx=ast.Load())
+                    defs[t.id] = [x for x in defs.get(t.id, []) if x is not None] + [piece]
     return defs
 
 
@@ -732,3 +771,127 @@ def zip_drops_item(ctx, funcs, rule):
                             n += 1
                             ctx.violated(rule, f.where(c), f"`{norm(c)[:60]}` is evaluated once per chunk on the same iterator `{a.id}`: zip takes the next item from `{a.id}` before it finds `{norm(later_bounded[0])}` exhausted and drops it, so one record is lost at the end of every full chunk (records 1000, 2001, ... of the input never reach a worker)", key_of(f, f"zip-drops-item:{norm(c)[:40]}"))
     return n
+
+
+def pitfall_lints(ctx, funcs, rule):
+    """Two constructs that are wrong whatever the surrounding code means: (a) `is` / `is not` between two values of which
+    neither is None / True / False (nor a stream object of `sys`): identity of equal integers above 256 or of equal
+    strings built at run time is an accident of the interpreter; (b) a list that is changed (`remove`, `insert`, `pop`,
+    `append`, `del xs[i]`) inside the `for` loop that iterates it: the iterator skips the element after each removal."""
+    from ..core import norm, walk_own
+
+    n = 0
+    for f in funcs:
+        for c in walk_own(f.node):
+            if isinstance(c, ast.Compare) and any(isinstance(o, (ast.Is, ast.IsNot)) for o in c.ops):
+                operands = [c.left] + list(c.comparators)
+                if any(isinstance(o, ast.Constant) and (o.value is None or isinstance(o.value, bool) or o.value is Ellipsis) for o in operands):
+                    continue
+                if any(norm(o).startswith("sys.") for o in operands):
+                    continue
+                n += 1
+                ctx.violated(rule, f.where(c), f"`{norm(c)[:70]}` compares object identity, not value: two equal integers above 256 (or two equal strings read from a file) are different objects, so equal values are treated as different", key_of(f, f"identity-of-values:{norm(c)[:50]}"))
+            if isinstance(c, ast.For) and isinstance(c.iter, ast.Name):
+                xs = c.iter.id
+                for m_ in ast.walk(c):
+                    hit = None
+                    if isinstance(m_, ast.Call) and isinstance(m_.func, ast.Attribute) and isinstance(m_.func.value, ast.Name) and m_.func.value.id == xs and m_.func.attr in ("remove", "insert", "pop", "append", "extend", "clear", "sort", "reverse"):
+                        hit = norm(m_)
+                    if isinstance(m_, ast.Delete) and any(isinstance(t, ast.Subscript) and isinstance(t.value, ast.Name) and t.value.id == xs for t in m_.targets):
+                        hit = norm(m_)
+                    if hit:
+                        n += 1
+                        ctx.violated(rule, f.where(m_), f"`{hit[:60]}` changes the list `{xs}` inside the loop that iterates it: after a removal the iterator skips the next element (after an insertion it sees one twice), so some elements are never processed", key_of(f, f"mutated-while-iterated:{hit[:40]}"))
+                        break
+    return n
+
+
+def tag_pop_reinsert(ctx, rule):
+    """A key taken out of a record's tag mapping (`tags.pop(k)`, `del tags[k]`) and stored again moves to the end of the
+    insertion-ordered dict: the record is written with its optional fields in another order."""
+    from ..core import norm, walk_own
+    from . import emit
+
+    schema, extras, ems = emit.find_emitters(ctx, rule)
+    tags_attr = extras["tags_attr"]
+    n = 0
+    seen = set()
+    for f, rec, _n in ems:
+        if f.qualname in seen:
+            continue
+        seen.add(f.qualname)
+        base = f"{rec}.{tags_attr}"
+        for c in walk_own(f.node):
+            key = None
+            if isinstance(c, ast.Call) and isinstance(c.func, ast.Attribute) and c.func.attr == "pop" and norm(c.func.value) == base and c.args:
+                key = norm(c.args[0])
+            if isinstance(c, ast.Delete) and any(isinstance(t, ast.Subscript) and norm(t.value) == base for t in c.targets):
+                key = norm(next(t for t in c.targets if isinstance(t, ast.Subscript)).slice)
+            if key is None:
+                continue
+            stores = [st for st in walk_own(f.node) if isinstance(st, ast.Assign) and any(isinstance(t, ast.Subscript) and norm(t.value) == base and norm(t.slice) == key for t in st.targets)]
+            if stores:
+                n += 1
+                ctx.violated(rule, f.where(c), f"`{norm(c)[:60]}` takes the field {key} out of the record's tag mapping and `{norm(stores[0])[:50]}` puts it back: in an insertion-ordered dict the field moves to the end, so a record whose {key} is followed by other optional fields is written with its fields in another order", key_of(f, f"tag-pop-reinsert:{key}"))
+    if n == 0:
+        ctx.holds(rule, "gaftools/", "no writer takes a field out of a record's tag mapping and stores it again (which would move it to the end)", nontrivial=False)
+
+
+def pre_lints(ctx):
+    """Model-free lints over the source files the property depends on, evaluated before any model of the code is built (a
+    construct that is wrong whatever the surrounding code means is reported even when the rest of the check cannot read the
+    changed code): ordering comparison of two pieces of text, identity comparison of values, a list changed while it is
+    iterated, and a record line cut at any white space instead of at tabs."""
+    from .common import FILE_PROPS
+
+    repo = ctx.repo
+    rel = {m.relpath: m for m in repo.modules.values()}
+    mods = [rel[f_] for f_, props in FILE_PROPS.items() if ctx.prop in props and f_ in rel]
+    if not mods:
+        return
+    _once(ctx, "lib-text-lint")
+    ctx.__dict__["_prelinted"] = {m.name for m in mods}
+    text_lint(ctx, mods)
+    funcs = [f for m in mods for f in m.funcs.values()]
+    n = pitfall_lints(ctx, funcs, "R00.7")
+    for f in funcs:
+        for c in walk_own(f.node):
+            if isinstance(c, ast.Call) and isinstance(c.func, ast.Attribute) and c.func.attr == "split" and not c.keywords and (not c.args or (isinstance(c.args[0], ast.Constant) and c.args[0].value is None)):
+                base = c.func.value
+                while isinstance(base, ast.Call) and isinstance(base.func, ast.Attribute) and base.func.attr in ("strip", "rstrip", "lstrip", "decode"):
+                    base = base.func.value
+                if isinstance(base, ast.Name) and any(w in base.id.lower() for w in ("line", "mapping", "record", "row")) or (isinstance(base, ast.Name) and len(base.id) <= 2):
+                    n += 1
+                    ctx.violated("R00.8", f.where(c), f"`{norm(c)[:50]}` cuts a line of the file at every run of white space, not at the tabs that separate its columns: a blank inside a column (a read name `read1 ch=7`, a tag value `co:Z:two words`) shifts every later column or cuts the value short", key_of(f, f"whitespace-split:{norm(c)[:40]}"))
+    # a field of a record class stored as `param or <number / text>`: a legal falsy value (mapping quality 0, offset 0, an
+    # empty string) is silently replaced by the default
+    for f in funcs:
+        if f.cls is None or f.name != "__init__":
+            continue
+        for st in walk_own(f.node):
+            if isinstance(st, ast.Assign) and len(st.targets) == 1 and isinstance(st.targets[0], ast.Attribute) and norm(st.targets[0].value) == "self" and isinstance(st.value, ast.BoolOp) and isinstance(st.value.op, ast.Or) and len(st.value.values) == 2:
+                a_, b_ = st.value.values
+                if isinstance(a_, ast.Name) and a_.id in f.params and isinstance(b_, ast.Constant) and isinstance(b_.value, (int, float, str)) and not isinstance(b_.value, bool) and b_.value not in (0, ""):
+                    n += 1
+                    ctx.violated("R00.10", f.where(st), f"`{norm(st)[:60]}`: `or` replaces every falsy value, so a legal {a_.id} of 0 (or an empty string) read from the file becomes {b_.value!r} in the record", key_of(f, f"falsy-default:{st.targets[0].attr}"))
+    NUMERIC_TAGS = ("SO", "BO", "NO", "LN", "SR")
+    for f in funcs:
+        for c in walk_own(f.node):
+            if not isinstance(c, ast.Call):
+                continue
+            is_sort = (isinstance(c.func, ast.Name) and c.func.id in ("sorted", "max", "min")) or (isinstance(c.func, ast.Attribute) and c.func.attr == "sort")
+            if not is_sort:
+                continue
+            key = next((k.value for k in c.keywords if k.arg == "key"), None)
+            if isinstance(key, ast.Lambda):
+                parts = key.body.elts if isinstance(key.body, ast.Tuple) else [key.body]
+                for e in parts:
+                    t = norm(e)
+                    if isinstance(e, ast.Subscript) and any(t.endswith(f".tags['{tg}'][1]") for tg in NUMERIC_TAGS):
+                        n += 1
+                        ctx.violated("R00.9", f.where(c), f"the sort key `{t[:60]}` is the text of a numeric tag (no int()): offsets are then ordered as strings ('1100' before '600'), and code that relies on the numeric order (the binary search over a contig's segments, the (BO, NO) order of the S lines) meets a misordered list", key_of(f, f"text-sort-key:{t[:40]}"))
+            if key is None and isinstance(c.func, ast.Name) and c.func.id in ("max", "min") and len(c.args) == 1 and isinstance(c.args[0], ast.Call) and isinstance(c.args[0].func, ast.Attribute) and c.args[0].func.attr == "items" and not c.args[0].args:
+                n += 1
+                ctx.violated("R00.9", f.where(c), f"`{norm(c)[:50]}` takes the {c.func.id}imum of (key, value) pairs without a key function: pairs compare by their first element, so the entry with the {'greatest' if c.func.id == 'max' else 'smallest'} *key* is chosen, whatever the values (counts) are", key_of(f, f"minmax-of-items:{norm(c)[:40]}"))
+    if n == 0:
+        ctx.holds("R00.7", ", ".join(m.relpath for m in mods), "model-free lints (identity comparison of values, list changed while iterated, white-space split of a record line): nothing found", nontrivial=False)
